@@ -1,7 +1,7 @@
 (* Model of split_file_into_chunks_by_size (bigtools/src/utils/file.rs) on a file given as its
    bytes, and of the line stream a StreamingLineReader<BufReader<_>> delivers.  No proofs here.
 
-   The chunker works on bytes (since 7d8a88e the real one does too: read_until, not read_line, after
+   The chunker works on bytes (since e321e39 the real one does too: read_until, not read_line, after
    the seek, which may land inside a multi-byte character).  The line streams are read with
    read_line, which validates UTF-8: inputs are valid UTF-8 and every piece starts at a line start,
    so the validation never fails.  Not modelled: str::trim_end for non-ASCII white space (U+0085,
